@@ -558,6 +558,9 @@ class Evaluator:
                     nm = a.asname or a.name.split(".")[0]
                     st.env[nm] = ("glob", (s.module + "." if isinstance(s, ast.ImportFrom) and s.module else "") + a.name)
             yield st, None
+        elif isinstance(s, (ast.Global, ast.Nonlocal)):
+            self.emit(st, "global", (tuple(s.names),), s)
+            yield st, None
         elif isinstance(s, ast.Assert):
             c = self.ev(s.test, st)
             self.emit(st, "assert", (c,), s)
